@@ -62,6 +62,7 @@ def run(cmd, cwd, env=None, timeout=1800):
 def pyenv(dst):
     env = dict(os.environ)
     env["PYTHONPATH"] = os.path.join(dst, "src")
+    env["VERIF_REPO"] = dst
     env["PYTHONDONTWRITEBYTECODE"] = "1"
     return env
 
@@ -104,8 +105,17 @@ def detect(patch, prop, tier="quick", seed="1"):
                              "--survey"], VERIF, env, 7200)
         sigs = [l.strip()[len("signature: "):] for l in out.splitlines()
                 if l.strip().startswith("signature:")]
+        # survey mode does not suppress the open known findings: a change
+        # counts as detected only by a signature that is not one of them
+        known = {e["signature"] for e in json.load(open(os.path.join(
+            VERIF, "known_findings.json")))["findings"]
+            if e.get("status") == "open"}
+        sigs = [x for x in sigs if x not in known] + \
+               [x for x in sigs if x in known]
+        new = [x for x in sigs if x not in known]
         return {"property": prop, "tier": tier, "seed": str(seed),
-                "exit": code, "detected": code == 1 and "VIOLATION" in out,
+                "exit": code,
+                "detected": code == 1 and "VIOLATION" in out and bool(new),
                 "wall_s": round(dt, 1), "signatures": sigs[:6],
                 "tail": out[-400:] if code not in (0, 1) else ""}
     finally:
